@@ -1,1 +1,1149 @@
-pub fn main(_sub: &str, _args: &[String]) -> Result<(), String> { Err("todo".into()) }
+//! History generators: `gen random` (weighted random histories) and
+//! `gen builds` (exhaustive small heaps followed by one operation).
+
+use crate::types::Rng;
+use std::collections::HashMap;
+use std::fmt::Write as _;
+use std::io::Write as _;
+
+// ---------------------------------------------------------------------------
+// operation weights: THE place to edit profiles
+// ---------------------------------------------------------------------------
+
+#[derive(Clone, Copy, PartialEq, Eq, Debug)]
+enum OpK {
+    Push,
+    PushInc,
+    PushDec,
+    Chg,
+    ChgBy,
+    ChgAdd,
+    Remove,
+    Peek,
+    PeekMut,
+    Pop,
+    PopIf,
+    Get,
+    GetPrio,
+    GetMut,
+    Len,
+    IsEmpty,
+    Clear,
+    New,
+    FromVec,
+    FromIter,
+    Extend,
+    Append,
+    Convert,
+    Clone,
+    Eq,
+    Serde,
+    Deser,
+    Retain,
+    RetainMut,
+    SortedVec,
+    IntoVec,
+    IterMut,
+    Iter,
+    IntoIter,
+    Drain,
+    SortedIter,
+    WithCap,
+    Reserve,
+    ReserveX,
+    TryReserve,
+    TryReserveX,
+    Shrink,
+    Capacity,
+}
+use OpK::*;
+
+/// columns: core, bulk, iter, cap, all  (`fuse` uses the `all` column)
+#[rustfmt::skip]
+const WEIGHTS: &[(OpK, [u32; 5])] = &[
+    //                 core bulk iter  cap  all
+    (Push,           [ 300, 100, 100, 150, 120]),
+    (PushInc,        [  50,  15,  10,  15,  20]),
+    (PushDec,        [  50,  15,  10,  15,  20]),
+    (Chg,            [ 100,  30,  20,  30,  40]),
+    (ChgBy,          [  40,  10,  10,  10,  15]),
+    (ChgAdd,         [  40,  10,  10,  10,  15]),
+    (Remove,         [  80,  25,  20,  25,  30]),
+    (Peek,           [  40,  10,  10,  10,  12]),
+    (PeekMut,        [  30,  10,  10,  10,  10]),
+    (Pop,            [ 100,  30,  25,  30,  40]),
+    (PopIf,          [  70,  20,  10,  15,  25]),
+    (Get,            [  25,   8,   5,   8,   8]),
+    (GetPrio,        [  25,   8,   5,   8,   8]),
+    (GetMut,         [  25,   8,   5,   8,   8]),
+    (Len,            [  15,   5,   5,   8,   5]),
+    (IsEmpty,        [  10,   3,   3,   5,   3]),
+    (Clear,          [   3,   2,   1,   2,   2]),
+    (New,            [   2,   4,   1,   3,   3]),
+    (FromVec,        [   0,  25,   2,   0,  10]),
+    (FromIter,       [   0,  25,   2,   0,  10]),
+    (Extend,         [   0,  40,   2,   0,  15]),
+    (Append,         [   0,  20,   0,   0,   8]),
+    (Convert,        [   0,  12,   1,   0,   5]),
+    (Clone,          [   0,  12,   1,   0,   5]),
+    (Eq,             [   0,  12,   0,   0,   5]),
+    (Serde,          [   0,  12,   0,   0,   5]),
+    (Deser,          [   0,  15,   0,   0,   6]),
+    (Retain,         [   0,  15,   0,   0,   6]),
+    (RetainMut,      [   0,  15,   0,   0,   6]),
+    (SortedVec,      [   0,  12,   0,   0,   5]),
+    (IntoVec,        [   0,   8,   0,   0,   3]),
+    (IterMut,        [   0,   0,  60,   0,  15]),
+    (Iter,           [   0,   0,  30,   0,   8]),
+    (IntoIter,       [   0,   0,  25,   0,   6]),
+    (Drain,          [   0,   0,  15,   0,   4]),
+    (SortedIter,     [   0,   0,  30,   0,   8]),
+    (WithCap,        [   0,   0,   0,  10,   2]),
+    (Reserve,        [   0,   0,   0,  25,   4]),
+    (ReserveX,       [   0,   0,   0,  20,   3]),
+    (TryReserve,     [   0,   0,   0,  25,   4]),
+    (TryReserveX,    [   0,   0,   0,  20,   3]),
+    (Shrink,         [   0,   0,   0,  20,   3]),
+    (Capacity,       [   0,   0,   0,  20,   3]),
+];
+
+/// probability (percent) that an op of the `fuse` profile is prefixed `fuse k`
+const FUSE_PCT: u64 = 30;
+/// k of `fuse k` is drawn from 0..FUSE_MAX
+const FUSE_MAX: u64 = 6;
+/// probability (percent) of an iterator script with a call the type does not offer
+const INVALID_SCRIPT_PCT: u64 = 2;
+/// probability (percent) of an op on an empty register / a side the kind does not have
+const INVALID_OP_PCT: u64 = 1;
+
+fn profile_column(name: &str) -> Option<(usize, bool)> {
+    Some(match name {
+        "core" => (0, false),
+        "bulk" => (1, false),
+        "iter" => (2, false),
+        "cap" => (3, false),
+        "all" => (4, false),
+        "fuse" => (4, true),
+        _ => return None,
+    })
+}
+
+// ---------------------------------------------------------------------------
+// parameters
+// ---------------------------------------------------------------------------
+
+#[derive(Clone, Copy, PartialEq, Eq, Debug)]
+enum Kind {
+    Pq,
+    Dpq,
+}
+impl Kind {
+    fn s(self) -> &'static str {
+        match self {
+            Kind::Pq => "pq",
+            Kind::Dpq => "dpq",
+        }
+    }
+    fn other(self) -> Kind {
+        match self {
+            Kind::Pq => Kind::Dpq,
+            Kind::Dpq => Kind::Pq,
+        }
+    }
+}
+#[derive(Clone, Copy, PartialEq, Eq)]
+enum Prios {
+    Small,
+    Wide,
+    Extreme,
+}
+
+struct Flags(HashMap<String, String>);
+impl Flags {
+    fn parse(args: &[String]) -> Result<Flags, String> {
+        let mut m = HashMap::new();
+        let mut i = 0;
+        while i < args.len() {
+            let k = args[i]
+                .strip_prefix("--")
+                .ok_or_else(|| format!("unexpected argument `{}`", args[i]))?;
+            let v = args.get(i + 1).ok_or_else(|| format!("--{k} needs a value"))?;
+            m.insert(k.to_string(), v.clone());
+            i += 2;
+        }
+        Ok(Flags(m))
+    }
+    fn get<T: std::str::FromStr>(&mut self, k: &str, dflt: T) -> Result<T, String> {
+        match self.0.remove(k) {
+            None => Ok(dflt),
+            Some(v) => v.parse().map_err(|_| format!("bad value for --{k}: `{v}`")),
+        }
+    }
+    fn shard(&mut self) -> Result<(u64, u64), String> {
+        match self.0.remove("shard") {
+            None => Ok((0, 1)),
+            Some(v) => {
+                let (a, b) = v.split_once('/').ok_or("--shard wants i/n")?;
+                let (a, b): (u64, u64) = (
+                    a.parse().map_err(|_| "--shard wants i/n")?,
+                    b.parse().map_err(|_| "--shard wants i/n")?,
+                );
+                if b == 0 || a >= b {
+                    return Err("--shard i/n needs i < n".into());
+                }
+                Ok((a, b))
+            }
+        }
+    }
+    fn done(self) -> Result<(), String> {
+        match self.0.keys().next() {
+            None => Ok(()),
+            Some(k) => Err(format!("unknown option --{k}")),
+        }
+    }
+}
+
+fn open_out(path: &str) -> Result<Box<dyn std::io::Write>, String> {
+    if path == "-" {
+        Ok(Box::new(std::io::BufWriter::new(std::io::stdout())))
+    } else {
+        let f = std::fs::File::create(path).map_err(|e| format!("{path}: {e}"))?;
+        Ok(Box::new(std::io::BufWriter::with_capacity(1 << 20, f)))
+    }
+}
+
+pub fn main(sub: &str, args: &[String]) -> Result<(), String> {
+    match sub {
+        "random" => gen_random(args),
+        "builds" => gen_builds(args),
+        _ => Err(format!("unknown generator `{sub}`")),
+    }
+}
+
+// ---------------------------------------------------------------------------
+// gen random
+// ---------------------------------------------------------------------------
+
+struct Params {
+    len: u64,
+    kind: Option<Kind>,
+    col: usize,
+    fuse: bool,
+    keys: u64,
+    prios: Prios,
+    hashmode: u32,
+    disputed: bool,
+}
+
+/// light shadow of a register: which keys are probably present, with what priority
+#[derive(Clone, Default)]
+struct Shadow {
+    kind: Option<Kind>,
+    ents: Vec<(i64, i64)>,
+}
+impl Shadow {
+    fn find(&self, k: i64) -> Option<usize> {
+        self.ents.iter().position(|e| e.0 == k)
+    }
+    fn set(&mut self, k: i64, p: i64) {
+        match self.find(k) {
+            Some(i) => self.ents[i].1 = p,
+            None => self.ents.push((k, p)),
+        }
+    }
+    fn del(&mut self, k: i64) {
+        if let Some(i) = self.find(k) {
+            self.ents.swap_remove(i);
+        }
+    }
+    fn extreme(&self, max: bool) -> Option<usize> {
+        let it = self.ents.iter().enumerate();
+        if max {
+            it.max_by_key(|(_, e)| e.1).map(|(i, _)| i)
+        } else {
+            it.min_by_key(|(_, e)| e.1).map(|(i, _)| i)
+        }
+    }
+    fn len(&self) -> usize {
+        self.ents.len()
+    }
+}
+
+struct Gen<'a> {
+    p: &'a Params,
+    rng: Rng,
+    regs: Vec<Shadow>,
+    kind: Kind,
+    signed_keys: bool,
+    payload: i64,
+    alt: bool,
+}
+
+fn log2(x: usize) -> usize {
+    (usize::BITS - x.leading_zeros() - 1) as usize
+}
+/// the crate's `better_to_rebuild`
+fn better_to_rebuild(len1: usize, len2: usize) -> bool {
+    len1 > 1 && (len1 + len2) * 2 < len2 * log2(len1)
+}
+
+impl<'a> Gen<'a> {
+    fn key_at(&self, j: u64) -> i64 {
+        if self.signed_keys {
+            if j % 2 == 1 {
+                -(((j + 1) / 2) as i64)
+            } else {
+                (j / 2) as i64
+            }
+        } else {
+            j as i64
+        }
+    }
+    fn any_key(&mut self) -> i64 {
+        let j = self.rng.below(self.p.keys);
+        self.key_at(j)
+    }
+    fn absent_key(&mut self, r: usize) -> i64 {
+        for _ in 0..6 {
+            let k = self.any_key();
+            if self.regs[r].find(k).is_none() {
+                return k;
+            }
+        }
+        // outside the universe: never pushed
+        self.p.keys as i64 + self.rng.below(4) as i64
+    }
+    fn present_key(&mut self, r: usize) -> Option<i64> {
+        let n = self.regs[r].len();
+        if n == 0 {
+            None
+        } else {
+            Some(self.regs[r].ents[self.rng.below(n as u64) as usize].0)
+        }
+    }
+    /// ~70% a key that is present (78% from the shadow, which drifts a little)
+    fn lookup_key(&mut self, r: usize) -> i64 {
+        if self.rng.pct(78) {
+            if let Some(k) = self.present_key(r) {
+                return k;
+            }
+        }
+        self.absent_key(r)
+    }
+    fn push_key(&mut self, r: usize) -> i64 {
+        if self.rng.pct(30) {
+            if let Some(k) = self.present_key(r) {
+                return k;
+            }
+        }
+        self.absent_key(r)
+    }
+    fn prio(&mut self) -> i64 {
+        match self.p.prios {
+            Prios::Small => self.rng.range(0, 3),
+            Prios::Wide => self.rng.range(-50, 50),
+            Prios::Extreme => {
+                if self.rng.pct(50) {
+                    *self.rng.pick(&[i64::MIN, -1, 0, 1, i64::MAX])
+                } else {
+                    self.rng.range(0, 3)
+                }
+            }
+        }
+    }
+    fn pl(&mut self) -> i64 {
+        self.payload += 1;
+        self.payload
+    }
+    fn opt_prio(&mut self, none_pct: u64) -> String {
+        if self.rng.pct(none_pct) {
+            "-".into()
+        } else {
+            self.prio().to_string()
+        }
+    }
+    fn opt_pl(&mut self, none_pct: u64) -> String {
+        if self.rng.pct(none_pct) {
+            "-".into()
+        } else {
+            self.pl().to_string()
+        }
+    }
+    fn gen_kind(&mut self) -> Kind {
+        match self.p.kind {
+            Some(k) => k,
+            None => {
+                if self.rng.pct(85) {
+                    self.kind
+                } else {
+                    self.kind.other()
+                }
+            }
+        }
+    }
+    fn nonempty(&self) -> Vec<usize> {
+        (0..self.regs.len()).filter(|r| self.regs[*r].kind.is_some()).collect()
+    }
+    /// register the next op works on: mostly 0
+    fn target(&mut self) -> Option<usize> {
+        let ne = self.nonempty();
+        if ne.is_empty() {
+            return None;
+        }
+        if ne[0] == 0 && self.rng.pct(70) {
+            return Some(0);
+        }
+        Some(*self.rng.pick(&ne))
+    }
+    fn any_reg(&mut self) -> usize {
+        self.rng.below(self.regs.len() as u64) as usize
+    }
+    fn side(&mut self, r: usize, drain_phase: bool) -> &'static str {
+        match self.regs[r].kind {
+            Some(Kind::Dpq) => {
+                let max = if drain_phase {
+                    self.alt = !self.alt;
+                    self.alt
+                } else {
+                    self.rng.pct(50)
+                };
+                if max {
+                    "max"
+                } else {
+                    "min"
+                }
+            }
+            _ => {
+                if self.rng.pct(INVALID_OP_PCT) {
+                    "min"
+                } else {
+                    "max"
+                }
+            }
+        }
+    }
+
+    /// `n (k pl p)*n`; `dups`: probability (percent) of repeating an earlier key
+    fn elems(&mut self, r_for_keys: Option<usize>, n: usize, dups: u64) -> (String, Vec<(i64, i64)>) {
+        let mut s = n.to_string();
+        let mut l: Vec<(i64, i64)> = Vec::with_capacity(n);
+        for _ in 0..n {
+            let k = if !l.is_empty() && self.rng.pct(dups) {
+                l[self.rng.below(l.len() as u64) as usize].0
+            } else {
+                match r_for_keys {
+                    Some(r) if self.rng.pct(75) => self.absent_key(r),
+                    _ => self.any_key(),
+                }
+            };
+            let p = self.prio();
+            let pl = self.pl();
+            let _ = write!(s, " {k} {pl} {p}");
+            l.push((k, p));
+        }
+        (s, l)
+    }
+    fn list_size(&mut self) -> usize {
+        let x = self.rng.below(100);
+        (if x < 50 {
+            self.rng.range(0, 8)
+        } else if x < 80 {
+            self.rng.range(9, 20)
+        } else {
+            self.rng.range(25, 45)
+        }) as usize
+    }
+    /// size of an extend: small, or on either side of the rebuild threshold
+    fn extend_size(&mut self, cur: usize) -> usize {
+        let x = self.rng.below(100);
+        if x < 40 {
+            return self.rng.range(0, 6) as usize;
+        }
+        if x < 80 {
+            // smallest n with better_to_rebuild(cur, n)
+            if let Some(t) = (1..=64).find(|n| better_to_rebuild(cur, *n)) {
+                let lo = t.saturating_sub(3).max(1) as i64;
+                return self.rng.range(lo, t as i64 + 3) as usize;
+            }
+        }
+        self.rng.range(7, 40) as usize
+    }
+    fn hint(&mut self, n: usize) -> (String, String) {
+        match self.rng.below(6) {
+            0 | 1 => (n.to_string(), n.to_string()),
+            2 => ("0".into(), "-".into()),
+            3 => ("0".into(), "18446744073709551615".into()),
+            4 => (n.to_string(), "-".into()),
+            _ => {
+                let lo = self.rng.range(0, n as i64);
+                let hi = n as i64 + self.rng.range(0, 40);
+                (lo.to_string(), hi.to_string())
+            }
+        }
+    }
+
+    /// iterator script `A E n step*n` for an iterator over `len` elements
+    fn script(&mut self, full: bool, itermut: bool, len: usize) -> String {
+        let nsteps = self.rng.below(len as u64 + 4) as usize;
+        let cnt = |g: &mut Gen| g.rng.below(len as u64 + 3);
+        // adaptor
+        let mut ad = if full {
+            match self.rng.below(4) {
+                0 | 1 => "direct".to_string(),
+                2 => "rev".to_string(),
+                _ => format!("take:{}", cnt(self)),
+            }
+        } else if self.rng.pct(60) {
+            "direct".to_string()
+        } else {
+            format!("take:{}", cnt(self))
+        };
+        let take = ad.starts_with("take");
+        // end
+        let mut end = if full && ad == "direct" && self.rng.pct(45) {
+            match self.rng.below(6) {
+                0 => format!("len:take:{}", cnt(self)),
+                1 => format!("len:skip:{}", cnt(self)),
+                2 => format!("len:zip:{}", cnt(self)),
+                3 => "len:rev".to_string(),
+                4 => "len:enum".to_string(),
+                _ => "len:peek".to_string(),
+            }
+        } else if self.rng.pct(75) {
+            "drop".to_string()
+        } else {
+            "forget".to_string()
+        };
+        // steps
+        let mut steps: Vec<String> = Vec::with_capacity(nsteps);
+        for _ in 0..nsteps {
+            let x = self.rng.below(100);
+            let mut st = if full {
+                if x < 40 {
+                    "n"
+                } else if x < 70 {
+                    if take {
+                        "n"
+                    } else {
+                        "b"
+                    }
+                } else if x < 85 {
+                    "l"
+                } else {
+                    "s"
+                }
+            } else if x < 75 {
+                "n"
+            } else {
+                "s"
+            }
+            .to_string();
+            if itermut && (st == "n" || st == "b") && self.rng.pct(70) {
+                let w = self.opt_prio(40);
+                let pl = self.opt_pl(50);
+                st = format!("{st}:{w}:{pl}");
+            }
+            steps.push(st);
+        }
+        // a call the type does not offer.  Classes 0..=5: FORMAT.md, the
+        // harness and the model all say `invalid`.  Classes 6..=8 (only with
+        // --disputed 1): Rust does not offer them (FORMAT.md: invalid) but the
+        // model's lazy rule (Iter.v: ad_step / adaptor_len) accepts them.
+        if self.rng.pct(INVALID_SCRIPT_PCT) {
+            let classes = if self.p.disputed { 9 } else { 6 };
+            let has_n = steps.iter().any(|s| s.starts_with('n'));
+            match self.rng.below(classes) {
+                // a call through skip(N)
+                0 => {
+                    ad = format!("skip:{}", cnt(self));
+                    if steps.is_empty() {
+                        steps.push("s".into());
+                    }
+                    if end.starts_with("len") {
+                        end = "drop".into();
+                    }
+                }
+                // next_back through take(N) / on a forward-only iterator
+                1 if take || (!full && ad == "direct") => steps.push("b".into()),
+                // len:* behind an adaptor
+                2 if full && ad != "direct" => end = "len:enum".into(),
+                // len() on a forward-only iterator
+                3 if !full && ad == "direct" => steps.push("l".into()),
+                // rev() of a forward-only iterator, with a next
+                4 if !full => {
+                    ad = "rev".into();
+                    if !has_n {
+                        steps.push("n".into());
+                    }
+                }
+                // len:rev / len:enum of a forward-only iterator
+                5 if !full && ad == "direct" => {
+                    end = if self.rng.pct(50) { "len:rev".into() } else { "len:enum".into() }
+                }
+                // disputed: rev() of a forward-only iterator without next/next_back
+                6 if !full => {
+                    ad = "rev".into();
+                    steps.retain(|s| s == "s");
+                }
+                // disputed: take(N).len() of a forward-only iterator
+                7 if !full && take => steps.push("l".into()),
+                // disputed: len:take/skip/zip/peek of a forward-only iterator
+                8 if !full && ad == "direct" => {
+                    end = match self.rng.below(4) {
+                        0 => format!("len:take:{}", cnt(self)),
+                        1 => format!("len:skip:{}", cnt(self)),
+                        2 => format!("len:zip:{}", cnt(self)),
+                        _ => "len:peek".to_string(),
+                    }
+                }
+                _ => {}
+            }
+        } else if self.rng.pct(1) {
+            // skip(N) around the iterator without any call: offered
+            ad = format!("skip:{}", cnt(self));
+            steps.clear();
+            if end.starts_with("len") {
+                end = "forget".into();
+            }
+        }
+        let mut s = format!("{ad} {end} {}", steps.len());
+        for st in steps {
+            s.push(' ');
+            s.push_str(&st);
+        }
+        s
+    }
+
+    fn weights(&self, frac: f64, style: u64) -> Vec<(OpK, u32)> {
+        // style 0: uniform; 1: grow then drain; 2: grow, plateau, drain
+        let (grow_until, drain_from) = match style {
+            0 => (0.0, 2.0),
+            1 => (0.55, 0.8),
+            _ => (0.35, 0.85),
+        };
+        WEIGHTS
+            .iter()
+            .map(|(k, w)| {
+                let mut w = w[self.p.col] * 4;
+                if frac < grow_until {
+                    match k {
+                        Push => w *= 4,
+                        Pop | PopIf | Remove | Clear | Drain | Retain | RetainMut => w /= 4,
+                        _ => {}
+                    }
+                } else if frac >= drain_from {
+                    match k {
+                        Pop => w *= 8,
+                        PopIf => w *= 3,
+                        Remove => w *= 2,
+                        Push | PushInc | PushDec | Extend | FromVec | FromIter => w /= 4,
+                        _ => {}
+                    }
+                }
+                if self.p.kind.is_some() && *k == Convert {
+                    w = 0;
+                }
+                (*k, w)
+            })
+            .collect()
+    }
+
+    fn pick_op(&mut self, ws: &[(OpK, u32)]) -> OpK {
+        let total: u64 = ws.iter().map(|w| w.1 as u64).sum();
+        let mut x = self.rng.below(total.max(1));
+        for (k, w) in ws {
+            if x < *w as u64 {
+                return *k;
+            }
+            x -= *w as u64;
+        }
+        Push
+    }
+
+    /// one op line (without a fuse prefix); updates the shadow
+    fn op(&mut self, k: OpK, drain_phase: bool) -> String {
+        // constructors do not need a live register
+        match k {
+            New => {
+                let (kd, r) = (self.gen_kind(), self.any_reg());
+                self.regs[r] = Shadow { kind: Some(kd), ents: vec![] };
+                return format!("new {} {r}", kd.s());
+            }
+            WithCap => {
+                let (kd, r) = (self.gen_kind(), self.any_reg());
+                let c = if self.rng.pct(70) { self.rng.range(0, 16) } else { self.rng.range(17, 1000) };
+                self.regs[r] = Shadow { kind: Some(kd), ents: vec![] };
+                return format!("withcap {} {r} {c}", kd.s());
+            }
+            FromVec => {
+                let (kd, r) = (self.gen_kind(), self.any_reg());
+                let n = self.list_size();
+                let (s, l) = self.elems(None, n, 20);
+                let mut sh = Shadow { kind: Some(kd), ents: vec![] };
+                for (k, p) in l {
+                    if sh.find(k).is_none() {
+                        sh.set(k, p);
+                    }
+                }
+                self.regs[r] = sh;
+                return format!("fromvec {} {r} {s}", kd.s());
+            }
+            FromIter => {
+                let (kd, r) = (self.gen_kind(), self.any_reg());
+                let n = self.list_size();
+                let (s, l) = self.elems(None, n, 20);
+                let (lo, hi) = self.hint(n);
+                let mut sh = Shadow { kind: Some(kd), ents: vec![] };
+                for (k, p) in l {
+                    sh.set(k, p);
+                }
+                self.regs[r] = sh;
+                return format!("fromiter {} {r} {lo} {hi} {s}", kd.s());
+            }
+            Deser => {
+                let (kd, r) = (self.gen_kind(), self.any_reg());
+                let n = self.list_size();
+                let (s, l) = self.elems(None, n, 25);
+                let mut sh = Shadow { kind: Some(kd), ents: vec![] };
+                for (k, p) in l {
+                    sh.set(k, p);
+                }
+                self.regs[r] = sh;
+                return format!("deser {} {r} {s}", kd.s());
+            }
+            _ => {}
+        }
+        let r = match self.target() {
+            Some(r) => r,
+            None => {
+                let kd = self.gen_kind();
+                self.regs[0] = Shadow { kind: Some(kd), ents: vec![] };
+                return format!("new {} 0", kd.s());
+            }
+        };
+        // now and then: the same op on an empty register
+        if self.rng.pct(INVALID_OP_PCT) {
+            if let Some(e) = (0..self.regs.len()).find(|i| self.regs[*i].kind.is_none()) {
+                return match k {
+                    Push => format!("push {e} 1 1 1"),
+                    Pop => format!("pop {e} max"),
+                    Remove => format!("remove {e} 1"),
+                    _ => format!("len {e}"),
+                };
+            }
+        }
+        match k {
+            Push | PushInc | PushDec => {
+                let key = self.push_key(r);
+                let (pl, p) = (self.pl(), self.prio());
+                let old = self.regs[r].find(key).map(|i| self.regs[r].ents[i].1);
+                let name = match k {
+                    Push => {
+                        self.regs[r].set(key, p);
+                        "push"
+                    }
+                    PushInc => {
+                        if old.map_or(true, |o| p > o) {
+                            self.regs[r].set(key, p);
+                        }
+                        "pushinc"
+                    }
+                    _ => {
+                        if old.map_or(true, |o| p < o) {
+                            self.regs[r].set(key, p);
+                        }
+                        "pushdec"
+                    }
+                };
+                format!("{name} {r} {key} {pl} {p}")
+            }
+            Chg | ChgBy => {
+                let key = self.lookup_key(r);
+                let p = self.prio();
+                if self.regs[r].find(key).is_some() {
+                    self.regs[r].set(key, p);
+                }
+                format!("{} {r} {key} {p}", if k == Chg { "chg" } else { "chgby" })
+            }
+            ChgAdd => {
+                let key = self.lookup_key(r);
+                if self.p.prios == Prios::Extreme {
+                    // i64::MAX + 1 would wrap in the crate but not in the model
+                    let p = self.prio();
+                    if self.regs[r].find(key).is_some() {
+                        self.regs[r].set(key, p);
+                    }
+                    return format!("chgby {r} {key} {p}");
+                }
+                let d = *self.rng.pick(&[-2i64, -1, -1, 1, 1, 2, 0]);
+                if let Some(i) = self.regs[r].find(key) {
+                    self.regs[r].ents[i].1 += d;
+                }
+                format!("chgadd {r} {key} {d}")
+            }
+            Remove => {
+                let key = self.lookup_key(r);
+                self.regs[r].del(key);
+                format!("remove {r} {key}")
+            }
+            Peek => format!("peek {r} {}", self.side(r, false)),
+            PeekMut => {
+                let s = self.side(r, false);
+                format!("peekmut {r} {s} {}", self.pl())
+            }
+            Pop => {
+                let s = self.side(r, drain_phase);
+                if let Some(i) = self.regs[r].extreme(s == "max") {
+                    self.regs[r].ents.swap_remove(i);
+                }
+                format!("pop {r} {s}")
+            }
+            PopIf => {
+                let s = self.side(r, drain_phase);
+                let w = self.opt_prio(40);
+                let pl = self.opt_pl(50);
+                let b = self.rng.pct(50);
+                if let Some(i) = self.regs[r].extreme(s == "max") {
+                    if b {
+                        self.regs[r].ents.swap_remove(i);
+                    } else if let Ok(w) = w.parse::<i64>() {
+                        self.regs[r].ents[i].1 = w;
+                    }
+                }
+                format!("popif {r} {s} {w} {pl} {}", b as u8)
+            }
+            Get => format!("get {r} {}", self.lookup_key(r)),
+            GetPrio => format!("getprio {r} {}", self.lookup_key(r)),
+            GetMut => {
+                let key = self.lookup_key(r);
+                format!("getmut {r} {key} {}", self.pl())
+            }
+            Len => format!("len {r}"),
+            IsEmpty => format!("isempty {r}"),
+            Clear => {
+                self.regs[r].ents.clear();
+                format!("clear {r}")
+            }
+            Retain | RetainMut => {
+                let d = self.rng.pct(70);
+                let n = self.rng.below(self.regs[r].len() as u64 / 2 + 3) as usize;
+                let mut tbl: Vec<(i64, Option<i64>, bool)> = Vec::new();
+                for _ in 0..n {
+                    let key = self.lookup_key(r);
+                    let w = if k == RetainMut && self.rng.pct(60) { Some(self.prio()) } else { None };
+                    tbl.push((key, w, self.rng.pct(50)));
+                }
+                let mut s = format!(
+                    "{} {r} {} {n}",
+                    if k == Retain { "retain" } else { "retainmut" },
+                    d as u8
+                );
+                for (key, w, keep) in &tbl {
+                    if k == Retain {
+                        let _ = write!(s, " {key} {}", *keep as u8);
+                    } else {
+                        let w = w.map_or("-".to_string(), |w| w.to_string());
+                        let _ = write!(s, " {key} {w} {}", *keep as u8);
+                    }
+                }
+                let sh = &mut self.regs[r];
+                sh.ents.retain_mut(|e| match tbl.iter().find(|t| t.0 == e.0) {
+                    Some(t) => {
+                        if let Some(w) = t.1 {
+                            e.1 = w;
+                        }
+                        t.2
+                    }
+                    None => d,
+                });
+                s
+            }
+            IterMut | Iter | IntoIter | Drain | SortedIter => {
+                let pq = self.regs[r].kind == Some(Kind::Pq);
+                let full = !(pq && (k == IterMut || k == SortedIter));
+                let len = self.regs[r].len();
+                let sc = self.script(full, k == IterMut, len);
+                let name = match k {
+                    IterMut => "itermut",
+                    Iter => "iter",
+                    IntoIter => "intoiter",
+                    Drain => "drain",
+                    _ => "sortediter",
+                };
+                if k == Drain && !sc.starts_with("skip") {
+                    self.regs[r].ents.clear();
+                }
+                format!("{name} {r} {sc}")
+            }
+            SortedVec => format!("sortedvec {r} {}", self.side(r, false)),
+            IntoVec => format!("intovec {r}"),
+            Extend => {
+                let cur = self.regs[r].len();
+                let n = self.extend_size(cur);
+                let (s, l) = self.elems(Some(r), n, 15);
+                let (lo, hi) = self.hint(n);
+                for (key, p) in l {
+                    self.regs[r].set(key, p);
+                }
+                format!("extend {r} {lo} {hi} {s}")
+            }
+            Append => {
+                // needs a second register of the same kind
+                let kd = self.regs[r].kind;
+                let others: Vec<usize> =
+                    (0..self.regs.len()).filter(|o| *o != r && self.regs[*o].kind == kd).collect();
+                if others.is_empty() || self.rng.pct(INVALID_OP_PCT) {
+                    // make one (or, rarely, an invalid append)
+                    if self.regs.len() < 2 {
+                        return format!("append {r} {r}");
+                    }
+                    let d = (r + 1 + self.rng.below(self.regs.len() as u64 - 1) as usize) % self.regs.len();
+                    if self.rng.pct(50) {
+                        self.regs[d] = self.regs[r].clone();
+                        return format!("clone {r} {d}");
+                    }
+                    let n = self.list_size();
+                    let (s, l) = self.elems(Some(r), n, 10);
+                    let mut sh = Shadow { kind: kd, ents: vec![] };
+                    for (key, p) in l {
+                        if sh.find(key).is_none() {
+                            sh.set(key, p);
+                        }
+                    }
+                    self.regs[d] = sh;
+                    return format!("fromvec {} {d} {s}", kd.unwrap().s());
+                }
+                let o = *self.rng.pick(&others);
+                let (d, s) = if self.rng.pct(50) { (r, o) } else { (o, r) };
+                let src = std::mem::take(&mut self.regs[s].ents);
+                for (key, p) in src {
+                    if self.regs[d].find(key).is_none() {
+                        self.regs[d].set(key, p);
+                    }
+                }
+                format!("append {d} {s}")
+            }
+            Convert => {
+                self.regs[r].kind = self.regs[r].kind.map(Kind::other);
+                format!("convert {r}")
+            }
+            Clone => {
+                let d = self.any_reg();
+                self.regs[d] = self.regs[r].clone();
+                format!("clone {r} {d}")
+            }
+            Eq => {
+                let kd = self.regs[r].kind;
+                let cross = self.rng.pct(INVALID_OP_PCT);
+                let others: Vec<usize> = (0..self.regs.len())
+                    .filter(|o| self.regs[*o].kind == kd || (cross && self.regs[*o].kind.is_some()))
+                    .collect();
+                let o = *self.rng.pick(&others);
+                format!("eq {r} {o}")
+            }
+            Serde => {
+                let kd = self.gen_kind();
+                let d = self.any_reg();
+                let mut sh = self.regs[r].clone();
+                sh.kind = Some(kd);
+                self.regs[d] = sh;
+                format!("serde {r} {} {d}", kd.s())
+            }
+            Reserve | ReserveX => {
+                let n = if self.rng.pct(70) { self.rng.range(0, 40) } else { self.rng.range(41, 1000) };
+                format!("{} {r} {n}", if k == Reserve { "reserve" } else { "reservex" })
+            }
+            TryReserve | TryReserveX => {
+                // small, or so large that it must fail; NEVER in between
+                let n = if self.rng.pct(75) {
+                    self.rng.range(0, 1000).to_string()
+                } else {
+                    self.rng
+                        .pick(&[
+                            "4611686018427387904",
+                            "9223372036854775807",
+                            "9223372036854775808",
+                            "18446744073709551615",
+                            "6917529027641081856",
+                        ])
+                        .to_string()
+                };
+                format!("{} {r} {n}", if k == TryReserve { "tryreserve" } else { "tryreservex" })
+            }
+            Shrink => format!("shrink {r}"),
+            Capacity => format!("capacity {r}"),
+            New | WithCap | FromVec | FromIter | Deser => unreachable!(),
+        }
+    }
+
+    fn history(&mut self, id: u64, out: &mut String) {
+        let nregs = if self.p.col == 0 { 2 } else { 3 };
+        let _ = writeln!(out, "H {id} {} {nregs}", self.p.hashmode);
+        self.regs = vec![Shadow::default(); nregs];
+        self.regs[0] = Shadow { kind: Some(self.kind), ents: vec![] };
+        let _ = writeln!(out, "new {} 0", self.kind.s());
+        let style = self.rng.below(3);
+        // about L ops: 0.75 L .. 1.25 L
+        let n = (self.p.len * 3 / 4 + self.rng.below(self.p.len / 2 + 1)).max(1);
+        for i in 1..n {
+            let frac = i as f64 / n as f64;
+            let ws = self.weights(frac, style);
+            let k = self.pick_op(&ws);
+            let drain_phase = style != 0 && frac >= 0.8;
+            let line = self.op(k, drain_phase);
+            if self.p.fuse && self.rng.pct(FUSE_PCT) {
+                let _ = write!(out, "fuse {} ", self.rng.below(FUSE_MAX));
+            }
+            out.push_str(&line);
+            out.push('\n');
+        }
+    }
+}
+
+fn gen_random(args: &[String]) -> Result<(), String> {
+    let mut f = Flags::parse(args)?;
+    let seed: u64 = f.get("seed", 1)?;
+    let count: u64 = f.get("count", 100)?;
+    let len: u64 = f.get("len", 60)?;
+    let kind = match f.get("kind", "both".to_string())?.as_str() {
+        "pq" => Some(Kind::Pq),
+        "dpq" => Some(Kind::Dpq),
+        "both" => None,
+        k => return Err(format!("--kind `{k}`")),
+    };
+    let prof = f.get("profile", "all".to_string())?;
+    let (col, fuse) = profile_column(&prof).ok_or_else(|| format!("--profile `{prof}`"))?;
+    let keys: u64 = f.get("keys", 64)?;
+    if keys == 0 {
+        return Err("--keys must be positive".into());
+    }
+    let prios = match f.get("prios", "small".to_string())?.as_str() {
+        "small" => Prios::Small,
+        "wide" => Prios::Wide,
+        "extreme" => Prios::Extreme,
+        p => return Err(format!("--prios `{p}`")),
+    };
+    let hashmode: u32 = f.get("hashmode", 0)?;
+    if hashmode > 3 {
+        return Err("--hashmode is 0..3".into());
+    }
+    let disputed = f.get("disputed", 0u32)? != 0;
+    let (si, sn) = f.shard()?;
+    let outp: String = f.get("out", "-".to_string())?;
+    f.done()?;
+    let mut w = open_out(&outp)?;
+    let p = Params { len, kind, col, fuse, keys, prios, hashmode, disputed };
+    let mut buf = String::new();
+    for id in 0..count {
+        if id % sn != si {
+            continue;
+        }
+        // everything about history `id` derives from (seed, id)
+        let mut rng = Rng::new(seed, id);
+        let kind = p.kind.unwrap_or(if rng.pct(50) { Kind::Pq } else { Kind::Dpq });
+        let signed_keys = rng.pct(25);
+        let mut g = Gen { p: &p, rng, regs: vec![], kind, signed_keys, payload: 100, alt: false };
+        buf.clear();
+        g.history(id, &mut buf);
+        w.write_all(buf.as_bytes()).map_err(|e| e.to_string())?;
+    }
+    w.flush().map_err(|e| e.to_string())
+}
+
+// ---------------------------------------------------------------------------
+// gen builds: every heap of n <= N elements with priorities in 0..P, followed
+// by one operation and a full drain
+// ---------------------------------------------------------------------------
+
+fn gen_builds(args: &[String]) -> Result<(), String> {
+    let mut f = Flags::parse(args)?;
+    let kind = match f.get("kind", "pq".to_string())?.as_str() {
+        "pq" => Kind::Pq,
+        "dpq" => Kind::Dpq,
+        k => return Err(format!("--kind `{k}` (pq or dpq)")),
+    };
+    let maxn: usize = f.get("maxn", 4)?;
+    let np: i64 = f.get("prios", 3)?;
+    if np < 1 {
+        return Err("--prios must be positive".into());
+    }
+    let hashmode: u32 = f.get("hashmode", 0)?;
+    let (si, sn) = f.shard()?;
+    let outp: String = f.get("out", "-".to_string())?;
+    f.done()?;
+    let mut w = open_out(&outp)?;
+
+    let sides: &[&str] = match kind {
+        Kind::Pq => &["max"],
+        Kind::Dpq => &["min", "max"],
+    };
+    let tail: String = sides.iter().map(|s| format!("sortedvec 0 {s}\n")).collect();
+    let mut id = 0u64;
+    let mut buf = String::new();
+    for n in 0..=maxn {
+        // the follow-up ops only depend on n
+        let mut ops: Vec<String> = vec![String::new()];
+        for s in sides {
+            ops.push(format!("pop 0 {s}"));
+            for wv in ["-".to_string(), "-1".to_string(), "1".to_string(), np.to_string()] {
+                for b in [0, 1] {
+                    ops.push(format!("popif 0 {s} {wv} - {b}"));
+                }
+            }
+        }
+        for i in 0..n {
+            ops.push(format!("remove 0 {i}"));
+            for p in -1..=np {
+                ops.push(format!("chg 0 {i} {p}"));
+            }
+            for p in -1..=np {
+                ops.push(format!("pushinc 0 {i} 5 {p}"));
+                ops.push(format!("pushdec 0 {i} 5 {p}"));
+            }
+            ops.push(format!("chgadd 0 {i} 1"));
+            ops.push(format!("chgadd 0 {i} -1"));
+        }
+        for p in -1..=np {
+            ops.push(format!("push 0 {n} 0 {p}"));
+        }
+        // every priority sequence in {0..P-1}^n
+        let mut ps = vec![0i64; n];
+        loop {
+            let mut prefix = format!("new {} 0\n", kind.s());
+            for (i, p) in ps.iter().enumerate() {
+                let _ = writeln!(prefix, "push 0 {i} 0 {p}");
+            }
+            for op in &ops {
+                if id % sn == si {
+                    let _ = writeln!(buf, "H {id} {hashmode} 1");
+                    buf.push_str(&prefix);
+                    if !op.is_empty() {
+                        buf.push_str(op);
+                        buf.push('\n');
+                    }
+                    buf.push_str(&tail);
+                }
+                id += 1;
+            }
+            if buf.len() > 1 << 20 {
+                w.write_all(buf.as_bytes()).map_err(|e| e.to_string())?;
+                buf.clear();
+            }
+            // next sequence
+            let mut i = 0;
+            while i < n {
+                ps[i] += 1;
+                if ps[i] < np {
+                    break;
+                }
+                ps[i] = 0;
+                i += 1;
+            }
+            if i == n {
+                break;
+            }
+        }
+    }
+    w.write_all(buf.as_bytes()).map_err(|e| e.to_string())?;
+    w.flush().map_err(|e| e.to_string())
+}
